@@ -130,3 +130,23 @@ Definition trans_hess (hy dyk dyl gyk d2yk : R) (diag : bool) : R :=
   if diag then dyk * hy * dyl + gyk * d2yk else dyk * hy * dyl.
 (* trans_grad_hessp: hpy = (H_y (p .* y'))_k *)
 Definition trans_hessp (hpy dyk gyk d2yk pk : R) : R := hpy * dyk + gyk * d2yk * pk.
+
+(* ---- helpers for the theorems ---- *)
+
+(* a family of per-event functions evaluated at a parameter value *)
+Definition evalat (Fs : list (R -> R)) (u : R) : list R := map (fun F => F u) Fs.
+
+(* row k of the default Hessian from the rows of H_lndata, H_int and grad(int) *)
+Fixpoint hess_row (ext : bool) (sw int gik : R) (hln hint gi : list R) : list R :=
+  match hln, hint, gi with
+  | a :: hln', b :: hint', c :: gi' =>
+      (- a + sw * (gik * c * int_h ext int) + sw * (b * int_g ext int)) :: hess_row ext sw int gik hln' hint' gi'
+  | _, _, _ => []
+  end.
+
+(* row k of a diagonal matrix diag(.., c, ..) of size n *)
+Fixpoint unit_row (k n : nat) (c : R) : list R :=
+  match n with
+  | O => []
+  | S n' => match k with O => c :: repeat 0 n' | S k' => 0 :: unit_row k' n' c end
+  end.
